@@ -546,4 +546,62 @@ theorem preIndex_render (pick : Pick) (s : SymFile) (h : WFIndex s) :
   rw [olines, infoFold_eq]
   simp only [specIndex, specModInfo, render, hE, olines]
 
+theorem specIndex_ok (s : SymFile) (h : WFIndex s) : (specIndex s).ok ∧
+    (specIndex s).addrs.Pairwise (· < ·) ∧ ((specIndex s).files.map (·.index)).Pairwise (· < ·) ∧
+    ((specIndex s).origins.map (·.index)).Pairwise (· < ·) ∧
+    (specIndex s).addrs.length = (specIndex s).entries.length := by
+  obtain ⟨st, hc, _, he⟩ := preIndex_spec Pick.first (render s)
+  rw [preIndex_render Pick.first s h] at he
+  cases hm : st.hasModule with
+  | false => simp [hm] at he
+  | true =>
+    simp only [hm, if_true, Pre.ix.injEq] at he
+    rw [he]
+    have hlt : (render s).length < pow64 := Nat.lt_trans h.small (by decide)
+    exact ⟨toIndex_ok _ st _ hc hlt hm, toIndex_sorted _ st _ hc⟩
+
+theorem index_render (pick : Pick) (s : SymFile) (h : WFIndex s) (chunks : List (List Byte))
+    (hflat : chunks.flatten = render s) :
+    index pick chunks =
+      if serializeSafe (specIndex s) then .ok (serialize (specIndex s)) else .panic := by
+  unfold index
+  rw [preIndex_chunk_independent, hflat, preIndex_render pick s h]
+  rfl
+
+theorem mapSelf_render (pick : Pick) (s : SymFile) (h : WFIndex s)
+    (hm : (tag tMODULE_ s.moduleLine).isSome = true) (hs : serializeSafe (specIndex s) = true) :
+    mapSelf pick (render s) = .ok (specIndex s) := by
+  rw [mapSelf_eq]
+  have htag : (tag tMODULE_ (render s)).isNone = false := by
+    have : ∀ (t a b : List Byte), (tag t a).isSome = true → (tag t (a ++ b)).isSome = true := by
+      intro t
+      induction t with
+      | nil => intro a b _; simp [tag]
+      | cons x xs ih =>
+        intro a b hab
+        cases a with
+        | nil => simp [tag] at hab
+        | cons y ys =>
+          simp only [tag, List.cons_append] at hab ⊢
+          split at hab
+          · rename_i e; simp only [e, if_true]; exact ih ys b hab
+          · simp at hab
+    have h1 : (tag tMODULE_ (render s)).isSome = true := by
+      unfold render
+      cases hl : s.lines.map SLine.bytes with
+      | nil =>
+        simp only [LB.joinNl, List.append_assoc]
+        exact this _ _ _ hm
+      | cons l ls =>
+        simp only [LB.joinNl, List.append_assoc]
+        exact this _ _ _ hm
+    cases ht : tag tMODULE_ (render s) with
+    | none => simp [ht] at h1
+    | some x => rfl
+  rw [htag]
+  simp only [Bool.false_eq_true, if_false]
+  rw [index_render pick s h [render s] (by simp), hs]
+  simp only [if_true]
+  rw [parse_serialize _ (specIndex_ok s h).1 hs]
+
 end BPS
